@@ -35,6 +35,7 @@ timed_note = "3-5 servers; HeartbeatTimeout=ElectionTimeout=LeaderLeaseTimeout=1
 claimed["C13"] = ("model_checking","vsched-dbdfs",timed_text,timed_note,tech_cluster+" (timed regime)")
 claimed["C14"] = ("model_checking","vsched-dbdfs",timed_text,timed_note,tech_cluster+" (timed regime)")
 claimed["C15"] = ("fault_enumeration","crashfs","Crash-image enumeration on the real FileSnapshotStore: os is replaced by an in-memory file system that logs every operation; for every prefix of the log and every combination of surviving un-synced effects the image is opened by a fresh store and checked (List/Open/bytes/order/retain/durability), plus corrupted state and metadata files.","Durability model stated in the evidence assumptions (fsync(file) persists data + own entry, fsync(dir) persists earlier entry operations, per-directory/per-file ordering, atomic rename); histories of <=2 (3 thorough) snapshots.","exhaustive crash-point x surviving-effects enumeration (fault enumeration) on the implementation")
+claimed["C16"] = ("model_checking","nettrans","The real NetworkTransport (two instances) under the cooperative scheduler over virtual connections: every message variant of every RPC type through pooled connections compared field by field on both ends; the connection cut after every byte offset of request and response followed by another call; unanswered calls (deadline); pipelines of depth 1-4 with MaxRPCsInFlight 2/3/10 under every interleaving of answers and deadlines.","Virtual ordered byte-stream connections with virtual-time deadlines; tcp_transport.go (real sockets) is outside the model; nil and empty slices identified.","stateless model checking of the implementation (controlled scheduler) + exhaustive fault-point enumeration")
 claimed["C19"] = ("model_checking","enum","Explicit-state BFS to the fixpoint over the real LogCache: every reachable canonical state, every operation compared with the uncached backend.","Index range and capacities bounded; canonical state abstracts payloads to equality with the backend entry.",tech_enum)
 
 checks=[]
@@ -62,6 +63,8 @@ m={"version":1,
  "hooks":{"guard":"none: no source hooks; instrumentation is a build-time overlay generated from /repo's working tree","enable":"./bin/verif regenerates instrumented copies of package raft and builds the worker with go build -overlay; /repo is never modified","baseline_off_cmd":"cd /repo && go test -vet=off -count=1 -timeout 25m ./...","source_commits":[],"add_only":True},
  "engines":[
    {"name":"vsched-dbdfs","path":"/verif/worker (world.go, explore.go, monitors.go, scenarios.go) + /verif/shim + /verif/internal/instr","serves_properties":sorted(k for k,v in claimed.items() if 'vsched' in v[1]),"kind_free_text":"source instrumenter + cooperative scheduler + deviation-bounded DFS over the real package raft (stateless model checking of the implementation)"},
+   {"name":"crashfs","path":"/verif/worker/enum_c15.go + /verif/shim/vos","serves_properties":["C15"],"kind_free_text":"in-memory file system replacing os in file_snapshot.go; crash-image enumeration (log prefix x surviving un-synced effects)"},
+   {"name":"nettrans","path":"/verif/worker/enum_c16.go","serves_properties":["C16"],"kind_free_text":"NetworkTransport over scheduler-owned virtual connections with byte-offset cuts and virtual deadlines"},
    {"name":"enum","path":"/verif/worker/enum_*.go","serves_properties":sorted(k for k,v in claimed.items() if 'enum' in v[1]),"kind_free_text":"explicit-state BFS / exhaustive small-scope enumeration on real components against reference models"}],
  "checks":checks,
  "notes":"Known findings are listed in /verif/known_findings.json (committed, never written at run time). Exit codes: 0 held, 1 violation (VIOLATION line), 2 internal error.",
